@@ -254,7 +254,48 @@ def build(rsome, spec):
     b.ops += 2
     m.st(x >= np.array(spec['xlo'], float), x <= np.array(spec['xhi'], float))
     b.ops += 1
-    for row in spec['rows']:
+    rows_iter = spec['rows']
+    if spec.get('vec'):
+        # plain rows sharing (set, sense, E) are written as ONE array-valued constraint
+        groups, rows_iter = {}, []
+        for row in spec['rows']:
+            if 'pieces' in row:
+                rows_iter.append(row)
+            else:
+                groups.setdefault((row.get('set'), row['sense'], bool(row.get('E'))), []).append(row)
+        for (name, sense, use_e), grp in groups.items():
+            AX = np.array([r.get('ax', [0.0] * nx) for r in grp], float)
+            CZ = np.array([r.get('cz', [0.0] * d) for r in grp], float)
+            c0 = np.array([r.get('c0', 0.0) for r in grp], float)
+            G = AX @ x + c0
+            for i in range(d):
+                Mi = np.array([np.array(r.get('Az', np.zeros((d, nx))), float).reshape(d, nx)[i] for r in grp])
+                if Mi.any():
+                    G = G + z[i] * (Mi @ x)
+            if ny:
+                BY = np.array([r.get('by', [0.0] * ny) for r in grp], float)
+                if BY.any():
+                    if isinstance(b.y, list):
+                        for j in range(ny):
+                            if BY[:, j].any():
+                                G = G + BY[:, j] * b.y[j]
+                    else:
+                        G = G + BY @ b.y
+            if CZ.any():
+                G = G + CZ @ z
+            if use_e:
+                G = rso.E(G)
+            con = (G <= 0) if sense == '<=' else (G >= 0) if sense == '>=' else (G == 0)
+            if name == 'F2':
+                con = con.forall(b.F2)
+            elif name == 'F':
+                con = con.forall(b.F)
+            elif name == 'supp':
+                from .ro_build import set_constraints
+                con = con.forall(set_constraints(rso, z, grp[0]['supp']['pieces'], d))
+            m.st(con)
+            b.ops += 4 + len(grp)
+    for row in rows_iter:
         if 'pieces' in row:
             gs = [_expr(b, dict(pc, style=row.get('style', 'A'))) for pc in row['pieces']]
             g = _piecewise(rso, b, row['sense'] == '<=', gs, spec.get('pwoff'), bool(row.get('E')))
